@@ -111,6 +111,14 @@ func TestZZVerifC02(t *testing.T) {
 		if h%5 == 4 {
 			prelude = gen.IntentionPrelude()
 		}
+		forced := map[int]bool{}
+		if h%7 == 3 {
+			// peering secrets life cycle; a cut is forced in the middle of the secret rotation
+			var mid int
+			prelude, mid = gen.PeeringSecretsScenario()
+			forced[mid] = true
+			forced[2] = true
+		}
 		for i := 0; i < ln; i++ {
 			idx += 1 + uint64(hr.Intn(2))
 			var c gen.Cmd
@@ -166,7 +174,7 @@ func TestZZVerifC02(t *testing.T) {
 				}
 				pend = nil
 			}
-			if k%every != off && k != ln {
+			if k%every != off && k != ln && !forced[k] {
 				continue
 			}
 			core.Progress("C02", fmt.Sprintf("history %d cut %d", h, k))
